@@ -54,7 +54,7 @@ Lemma logs_server_sync : forall g s sv, logs (server_sync g s sv) = logs s.
 Proof. intros. unfold server_sync. apply fold_left_proj. intros; apply logs_server_sync_idx. Qed.
 Lemma logs_gc : forall s, logs (gc s) = logs s.
 Proof.
-  intros. unfold gc. rewrite fold_left_proj.
+  intros. unfold gc. cbv zeta. rewrite logs_st_conns. rewrite fold_left_proj.
   - apply fold_left_proj. intros a c. unfold gc_client.
     destruct (cl_obj c || client_refs a (cl_inst c)); [reflexivity|].
     match goal with |- context [index_of ?x ?l ?i] => destruct (index_of x l i) end; lg.
@@ -388,7 +388,11 @@ Lemma lim_server_sync : forall g s sv, lim_ok g s -> lim_ok g (server_sync g s s
 Proof. intros. unfold server_sync. apply fold_left_inv; [intros; apply lim_server_sync_idx; assumption|assumption]. Qed.
 Lemma lim_gc : forall g s, lim_ok g s -> lim_ok g (gc s).
 Proof.
-  intros g s H. unfold gc. apply fold_left_inv.
+  intros g s H. unfold gc. cbv zeta.
+  match goal with |- lim_ok g (st_conns ?x (filter ?f (s_conns ?x))) => assert (H0 : lim_ok g x) end.
+  2:{ unfold lim_ok in *. cbn [s_conns st_conns]. apply Forall_forall. intros k Hk. apply filter_In in Hk.
+      rewrite Forall_forall in H0. apply H0. tauto. }
+  apply fold_left_inv.
   - intros a c Ha. unfold gc_server. destruct (sv_obj c || server_refs a (sv_inst c)); [exact Ha|].
     unfold lim_ok. cbn [s_conns st_reg st_conns st_servers].
     apply (Forall_map_if _ (conn_ok g) (fun k => N.eqb (k_sv k) (sv_inst c)) (fun k => k_with_svw k VNone)); [exact Ha|]. intros k Hk; exact Hk.
